@@ -84,6 +84,20 @@ def mutable_ids(root):
     return {id(v): path for path, v in walk_graph(root) if is_mutable(v)}
 
 
+class Uncopyable(AbsVal):
+    """A value copy.deepcopy refuses (a lock, an open file, a generator ...)."""
+
+    def __repr__(self):
+        return "<uncopyable>"
+
+    def call_method(self, it, name, args, kwargs):
+        if name == "__deepcopy__":
+            raise Raised(ExcVal("TypeError", ["cannot pickle '_thread.lock' object"]), None)
+        if name == "__copy__":
+            return self
+        return NotImplemented
+
+
 # ----------------------------------------------------------------------------- sample library
 CONCRETE = {"author-value": "Ann Author and {Bob} Builder", "title": "{A Title}", "month": "jan", "year": "1990", "sval": '"str value"',
             "va": "12", "name0": "Ann Author", "name1": "Builder, Bob", "first": "Ann", "last": "Author"}
@@ -208,11 +222,16 @@ def run(P: Program, rep: Report):
 
         variant = 0
 
-        def run1(ctx, mcls=mcls, kwargs=kwargs, name_kind=name_kind, concrete=True):
+        def run1(ctx, mcls=mcls, kwargs=kwargs, name_kind=name_kind, concrete=True, uncopyable=False):
             it = driver_interp(P, ctx, mod, dict(intr))
             it.unknown_loop_iters = (1,)
             try:
                 lib = sample_library(it, P, name_kind, concrete=concrete)
+                if uncopyable:
+                    # parser_metadata may hold any python object: one that cannot be deep-copied makes the copy fail - falling back
+                    # to a shallow copy would share the entry's fields with the input
+                    for b_ in it.iterate(it.get_attr(lib, "entries")):
+                        b_.attrs["_parser_metadata"].items["guard"] = Uncopyable()
                 mw = it.construct(mcls, [], dict(kwargs))
             except Raised as r:
                 return ("setup-raise", r, None, None, None, None)
@@ -249,6 +268,7 @@ def run(P: Program, rep: Report):
             return ("return", out, lib, before, in_ids, (flag, second))
 
         res = explore(run1, 4000)
+        res = res + explore(lambda c: run1(c, uncopyable=True), 4000)
         if rep.tier != "quick":
             # unknown values (more paths through the value-dependent code); the second application stays with the concrete pass
             res = res + explore(lambda c: run1(c, concrete=False), 40000)
@@ -357,6 +377,44 @@ def run(P: Program, rep: Report):
 
     rep.rule("C07.R6", "copying a failed block must not raise: every package exception class is copy-safe (same rule as C01.R6)")
     common.exception_copy_safety(P, rep, "C07.R6")
+
+    rep.rule("C07.R7", "configuration is per instance: constructing further instances of a shipped middleware (each boolean option flipped) leaves "
+                       "every attribute an existing instance reads - its own and the class-level ones - as it was")
+
+    def state_of(it, mw):
+        out = sorted((k, repr(v)) for k, v in mw.attrs.items())
+        for c in mw.cls.mro:
+            for name in c.class_attrs:
+                if not (name.startswith("__") and name.endswith("__")) and name not in mw.attrs:
+                    try:
+                        out.append((f"{c.name}.{name}", repr(it.get_attr(mw, name))))
+                    except (Raised, Unsupported):
+                        pass
+        return out
+    for c in concrete:
+        required = next((dict(kw_) for (_l, _m, cn_, kw_, _k) in cfgs if cn_ == c.name), {})
+
+        def run7(ctx, c=c, required=required):
+            it = driver_interp(P, ctx, c.module.name.split(".", 1)[-1], dict(intr))
+            try:
+                d1 = it.construct(c, [], dict(required))
+                before = state_of(it, d1)
+                made = []
+                for kw in common.constructor_variants(c):
+                    try:
+                        it.construct(c, [], dict(required, **kw))
+                        made.append(kw)
+                    except Raised:
+                        pass
+                return (before, state_of(it, d1), made)
+            except Raised as r:
+                return ("raise", r.cls_name(), None)
+            except (Unsupported, LoopBound) as u:
+                raise AnalysisError(f"C07.R7: analyser cannot construct {c.name}: {u}")
+        for _c, (before, after, made) in explore(run7, 20):
+            diff = [b for b, a_ in zip(before, after) if b != a_] if before != "raise" and len(before) == len(after) else before
+            rep.check(before == after and before != "raise", "C07.R7", f"per-instance-configuration:{c.name}", c.loc,
+                      f"constructing other {c.name} instances ({made}) changes an existing instance's state: {diff!r} -> {after!r}")
 
     rep.rule("C07.R9", "no unsafe memoisation in the modules this property rests on: a function decorated with lru_cache / cache / "
                       "cached_property neither takes nor returns a mutable object (else later calls see stale or shared results)")
